@@ -1601,6 +1601,22 @@ def not_contains(a, b):
     return not operator.contains(a, b)
 
 
+def not_lt(a, b):
+    return not a < b
+
+
+def not_le(a, b):
+    return not a <= b
+
+
+def not_gt(a, b):
+    return not a > b
+
+
+def not_ge(a, b):
+    return not a >= b
+
+
 @dataclass(eq=False)
 class Comparator(BinaryOperator):
     """
@@ -1615,9 +1631,15 @@ class Comparator(BinaryOperator):
                                                     operator.lt: "<",
                                                     operator.le: "<=",
                                                     operator.gt: ">",
-                                                    operator.ge: ">="}
-    inverse_operation_map: ClassVar[Dict[Any, Any]] = {operator.lt: operator.ge, operator.ge: operator.lt,
-                                                       operator.gt: operator.le, operator.le: operator.gt,
+                                                    operator.ge: ">=",
+                                                    not_lt: "not <", not_le: "not <=",
+                                                    not_gt: "not >", not_ge: "not >="}
+    # the inverse of an ordering comparison is its negation: `not a < b` is `a >= b` only for totally ordered values, not
+    # for sets (ordered by inclusion) or NaN.
+    inverse_operation_map: ClassVar[Dict[Any, Any]] = {operator.lt: not_lt, not_lt: operator.lt,
+                                                       operator.le: not_le, not_le: operator.le,
+                                                       operator.gt: not_gt, not_gt: operator.gt,
+                                                       operator.ge: not_ge, not_ge: operator.ge,
                                                        operator.eq: operator.ne, operator.ne: operator.eq,
                                                        operator.contains: not_contains,
                                                        not_contains: operator.contains}
